@@ -486,6 +486,10 @@ async def run_primitive(name, params, build, half, col, cfg) -> None:  # noqa: A
                         viol.append(("no-yield", {"cell": name}))
                 else:
                     reached = []
+                    mid: list = []
+                    # what another task sees while the cancelled caller is suspended (if it
+                    # suspends at all): the effect must not exist even transiently
+                    loop.call_soon(lambda: mid.append(effect()))
                     with _Ctx(half.partition(":")[2]) as s:
                         await op()
                         reached.append(1)
@@ -496,6 +500,9 @@ async def run_primitive(name, params, build, half, col, cfg) -> None:  # noqa: A
                     e = effect()
                     if e:
                         viol.append(("effect-performed-in-cancelled-scope", {"cell": name, "effect": e}))
+                    elif any(mid):
+                        viol.append(("effect-visible-to-other-tasks-before-the-cancellation-was-raised",
+                                     {"cell": name, "effect": [m for m in mid if m][0]}))  # fmt: skip
 
                 tg.cancel_scope.cancel()
     except TimeoutError:
